@@ -40,6 +40,8 @@ def scenarios(tier):
     # a check period (0.13 s) that does not divide the 0.1 s polling of kill_process: a worker that ignores the stop signal
     # and dies for another reason is found by the periodic check between two polls of the kill in flight
     out.append(Scenario('hist', n0=2, pat='first-stubborn', tier=tier, tick=0.13))
+    # a worker that is still there for an instant after its SIGKILL: the picture must not depend on who collects it
+    out.append(Scenario('hist', n0=2, pat='stubborn-lag', tier=tier))
     out.append(Scenario('sweep', n0=1, pat='obedient', tier=tier, nodet=True))
     # the watched worker is the daemon's ONLY child (no bystander watcher): when it has died, waitpid(-1) has no child left
     # to wait for (ECHILD) - a different path through the periodic sweep
